@@ -209,7 +209,7 @@ class World:
         elif pat == "other_len":
             new, mt = b"completely different " + data[::-1], st.st_mtime_ns + 3_000_000_000
         else:  # same length
-            new = bytes([data[0] ^ 0x55]) + data[1:]
+            new = bytes([(data[0] + 1) % 256]) + data[1:]  # (not an involution: tampering twice does not restore the bytes)
             # stay within the same wall-clock second when possible: +1 ms
             mt = st.st_mtime_ns + 1_000_000
             if mt // 1_000_000_000 != st.st_mtime_ns // 1_000_000_000:
